@@ -539,3 +539,4 @@ _MIXED = "value operations of MISMATCHED kinds, every frame built by the real cl
 _quick("C13", "C15_mixedkinds", _MIXED, ["-witness", "20"], reach=["end"])
 _quick("C13", "C15_props", "(also under C15) every sequence of 3 kind-compatible value operations with or without property blocks, well-formed frames: every run-time check on these paths is an obligation", ["-witness", "20"], reach=["end"])
 _quick("C13", "C15_pipeline", "(also under C15) PIPELINE frames of well-formed sub-operations: every run-time check on these paths is an obligation", ["-witness", "5"], reach=["end"])
+_thorough("C13", "C15_mixedkinds4", "as C15_mixedkinds with every sequence of 4 operations (72 343 paths)", ["-witness", "50"])
